@@ -59,4 +59,5 @@ def main(tier):
     chk.run("R-SUBBYTE", VX.subbyte, cx.repo, floor=3)
     chk.run("R-INCLUDENAME", B.includename, cx.repo, floor=3)
     chk.run("R-ARRAYSTORAGE", C.arraystorage, cx.repo, floor=12)
+    chk.run("R-CONSTWRITE", B.constwrite, cx.repo, floor=5)
     return chk.finish()
